@@ -9,7 +9,7 @@ cargo test --offline --lib 2>&1 | grep -E "^test result" | head -3
 echo "--- with change: demo (expected to FAIL)"
 cargo test --offline --test seed_demo "$@" 2>&1 | grep -E "^test result|panicked|FAILED|error(\[|:)" | head -6
 echo "--- without change: demo (expected to PASS)"
-git stash push -q -- $(git diff --name-only | grep -v tests/seed_demo.rs) 2>/dev/null
+git diff -- . ":!tests/seed_demo.rs" > /tmp/_confirm.diff; git apply -R /tmp/_confirm.diff
 cargo test --offline --test seed_demo "$@" 2>&1 | grep -E "^test result|FAILED|error(\[|:)" | head -4
-git stash pop -q
+git apply /tmp/_confirm.diff
 git diff --stat | tail -1
